@@ -252,3 +252,53 @@ func VerifC17_Request() {
 	vrt.Assert(vrt.TWellFormed(out, vrt.TSTRUCT, 3), "C17.request.well-formed")
 	vrt.Assert(vrt.TDeepEq(want, out, vrt.TSTRUCT, 3), "C17.request.field-from-first-source")
 }
+
+func init() { vrt.Register("VerifC17_RequestContainer", VerifC17_RequestContainer) }
+
+// VerifC17_RequestContainer: Req{1: list<i32> ids (api.query "k"); 2: string msg; 3: map<string,i32> m (api.header
+// "k")}: container-typed annotated fields receive JSON text from their HTTP source, with or without leading
+// blanks (LEAD: 0 none, 1 space, 2 newline + tab); the field holds the denoted container.
+func VerifC17_RequestContainer() {
+	lead := []string{"", " ", "\n\t"}[vrt.Param("LEAD")]
+	st := thrift.VerifNewStruct("Req", 4)
+	fids := thrift.VerifAddField(st, thrift.VField{ID: 1, Name: "ids", Type: thrift.VerifList(thrift.VerifBasic(thrift.I32)), Req: 0}, thrift.Options{})
+	thrift.VerifAddField(st, thrift.VField{ID: 2, Name: "msg", Type: thrift.VerifBasic(thrift.STRING), Req: 2}, thrift.Options{})
+	fm := thrift.VerifAddField(st, thrift.VField{ID: 3, Name: "m", Type: thrift.VerifMap(thrift.VerifBasic(thrift.STRING), thrift.VerifBasic(thrift.I32)), Req: 0}, thrift.Options{})
+	thrift.VerifAddHTTP(st, fids, annotation.VerifHTTP(1, "k"))
+	thrift.VerifAddHTTP(st, fm, annotation.VerifHTTP(3, "k"))
+	thrift.VerifBuild(st)
+	d1, d2, d3 := vrt.U8(), vrt.U8(), vrt.U8()
+	vrt.Assume(d1 >= '0' && d1 <= '9' && d2 >= '0' && d2 <= '9' && d3 >= '0' && d3 <= '9')
+	req := &verifReq{
+		query:  lead + "[" + string([]byte{d1}) + "," + string([]byte{d2}) + "]",
+		header: lead + `{"a":` + string([]byte{d3}) + "}",
+	}
+	ctx := verifCtx{Context: context.Background(), req: req}
+	cv := NewBinaryConv(conv.Options{EnableHttpMapping: true})
+	out, err := cv.Do(ctx, st, []byte(`{"msg":"m"}`))
+	vrt.Assert(err == nil, "C17.request.container.converts")
+	if err != nil {
+		return
+	}
+	vrt.Reach("converted")
+	kids, ok := vrt.TChildren(out, vrt.TSTRUCT, 3)
+	vrt.Assert(ok && len(kids) == 3, "C17.request.container.well-formed")
+	if !ok {
+		return
+	}
+	wl := vrt.PutBE32(vrt.PutBE32(vrt.PutListHdr(nil, vrt.TI32, 2), int(d1-'0')), int(d2-'0'))
+	wm := vrt.PutBE32(vrt.PutString(vrt.PutMapHdr(nil, vrt.TSTRING, vrt.TI32, 1), []byte("a")), int(d3-'0'))
+	ws := vrt.PutString(nil, []byte("m"))
+	for _, k := range kids {
+		switch k.ID {
+		case 1:
+			vrt.Assert(k.Typ == vrt.TLIST && vrt.BytesEq(out, k.Start, k.End, wl, 0, len(wl)), "C17.request.container.list-from-query")
+		case 2:
+			vrt.Assert(k.Typ == vrt.TSTRING && vrt.BytesEq(out, k.Start, k.End, ws, 0, len(ws)), "C17.request.container.body-field")
+		case 3:
+			vrt.Assert(k.Typ == vrt.TMAP && vrt.BytesEq(out, k.Start, k.End, wm, 0, len(wm)), "C17.request.container.map-from-header")
+		default:
+			vrt.Assert(false, "C17.request.container.unexpected-field")
+		}
+	}
+}
